@@ -212,6 +212,35 @@ def t_traceback(rng):
                          "emit(debug.traceback('msg', 1))\n" % (d, d))
 
 
+def t_memlimit(rng):
+    """long loops inside contexts whose ONLY limit is memory.  The first family is memory-neutral on the unchanged tree
+    (Go calls with fixed parameters, Lua calls of several arities, tail calls, recursion, metamethod calls, ipairs/next
+    iteration, method calls: everything required is released again) and the limit is sized so that 8 accounted bytes
+    leaked per iteration flip done -> killed; the second family accumulates by design (closures, varargs, protected
+    calls: allocations that are never given back) and is only compared (coroutines are left out: Thread.end releases its
+    memory after handing control back, so the amount accounted at the kill point depends on goroutine timing).  Status and
+    ctx.used.memory are emitted: the accounting does not depend on any pool, so both must be identical on the five
+    builds that have quotas (default, noregpool, nocontpool, noregpool+nocontpool, safepool); noquotas has no runtime library."""
+    n = rng.choice([30000, 50000, 80000])
+    lim = 8 * n // 2 + 20000
+    return "memlimit", ("local n = %d\nlocal function run(f, ...) local ctx = runtime.callcontext({kill = {memory = %d}}, f, ...) emit(ctx.status, ctx.used.memory) end\n"
+                        "run(function() local s = 0 for i = 1, n do s = s + math.abs(-i) + math.floor(i / 2) + rawlen('ab') + string.len('abc') "
+                        "if rawequal(i, s) or type(i) == 'x' or math.type(i) == 'float' then s = 0 end end end)\n"
+                        "run(function() local function g(a, b, c) return a + b + (c or 0) end local s = 0 for i = 1, n do s = g(s, i) s = g(s, i, 1) end end)\n"
+                        "run(function() local function t(k, a) if k == 0 then return a end return t(k - 1, a + 1) end local s = 0 for i = 1, n // 10 do s = s + t(10, i) end end)\n"
+                        "run(function() local function r(k) if k == 0 then return 0 end local a, b = k, k return r(k - 1) + a - b end for i = 1, n // 50 do r(50) end end)\n"
+                        "run(function() local o = setmetatable({}, {__index = function(t, k) return k end, __add = function(a, b) return 1 end, "
+                        "__call = function(self, x) return x end}) local s = 0 for i = 1, n do s = s + o[i] + (o + o) + o(i) end end)\n"
+                        "run(function() local t = {1, 2, 3, 4, 5} local s = 0 for i = 1, n // 5 do for _, v in ipairs(t) do s = s + v end end end)\n"
+                        "run(function() local t = {a = 1, b = 2} local s = 0 for i = 1, n // 2 do for k, v in next, t do s = s + v end end end)\n"
+                        "run(function() local o = {v = 1} function o:get(d) return self.v + d end local s = 0 for i = 1, n do s = s + o:get(i) end end)\n"
+                        "emit('accumulating')\n"
+                        "run(function() local s = 0 for i = 1, n do local f = function() return i end s = s + f() end end)\n"
+                        "run(function(...) local s = 0 for i = 1, n do s = s + math.min(i, ...) + select('#', ...) end end, 4, 5, 6)\n"
+                        "run(function() local s = 0 for i = 1, n do local ok, v = pcall(math.floor, i + 0.5) s = s + v end end)\n"
+                        % (n, lim))
+
+
 def t_xpcall_threads(rng):
     """xpcall message handlers versus errors raised on other threads, before and after nested protected calls have
     pushed and popped contexts (pcall / xpcall / a protected call inside a coroutine)"""
@@ -330,7 +359,7 @@ def t_tbc_errors(rng):
                           "  emit(pcall(lost, i)) emit(busy(%d)) emit(pcall(lost2, i)) emit(xpcall(lost, debug.traceback, i)) emit(busy(7))\nend\n" % (n, b, b))
 
 
-TEMPLATES = [t_xpcall_threads, t_hooks, t_tbc_errors, t_traceback, t_close, t_reentrant, t_deep, t_tail, t_unwind, t_coro, t_closures, t_live, t_regsizes, t_varargs, t_gocalls]
+TEMPLATES = [t_memlimit, t_xpcall_threads, t_hooks, t_tbc_errors, t_traceback, t_close, t_reentrant, t_deep, t_tail, t_unwind, t_coro, t_closures, t_live, t_regsizes, t_varargs, t_gocalls]
 
 
 def rand_program(rng):
@@ -499,6 +528,8 @@ def run(tier, seed):
     reps = 12 if tier == "quick" else 150
     for t in TEMPLATES:
         for _ in range(reps):
+            if t is t_memlimit:
+                skip[len(programs)] = {"noquotas"}       # needs the runtime library
             programs.append(t(rng))
     nrand = 1000 if tier == "quick" else 20000
     for _ in range(nrand):
